@@ -390,6 +390,9 @@ soxr_t soxr_create(
   }
 #endif
 
+  if (io_ratio == 0 && input_rate != 0)   /* Quotient of two non-zero rates */
+    io_ratio = -1;     /* underflowed: not the same as `rates not yet given'. */
+
   if (q_spec && q_spec->e)  error = q_spec->e;
   else if (io_spec && io_spec->e) error = io_spec->e;
   else if (io_spec && (io_spec->itype | io_spec->otype) >= SOXR_SPLIT * 2)
